@@ -246,6 +246,13 @@ class Runner:
                 self.handshake(ep)
             elif op == "hsx":
                 self.handshake(ep, extra=hx(a[1]), cut=int(a[2]))
+            elif op in ("hsd", "hsdc"):
+                # the peer's handshake arrives, the application's onConnect returns a pending Deferred/Future
+                # (`hsd` server: stays CONNECTING until `res`; `hsdc` client: already OPEN, onOpen waits for `res`)
+                if (op == "hsd") == (ep.role == "server"):
+                    self.handshake(ep, deferred=True)
+            elif op == "res":
+                self.resolve_connect(ep)
             else:
                 raise ValueError("unknown op " + tok)
         except Disconnected:
@@ -259,12 +266,45 @@ class Runner:
             ep.last_exc = repr(ex)
         env.pump()
 
-    def handshake(self, ep, extra=b"", cut=None):
+    def resolve_connect(self, ep):
+        """the pending onConnect() result arrives (op `res`). If the connection is still CONNECTING this completes the
+        handshake (its own writes / onOpen are filtered as in `handshake`); if the connection is gone meanwhile, EVERYTHING
+        the endpoint does now stays visible: the model says it does nothing."""
+        import txaio
+        p = ep.proto
+        fut = getattr(ep, "pending_connect", None)
+        if fut is None:
+            return
+        ep.pending_connect = None
+        if ep.role == "server":
+            live = p.state == p.STATE_CONNECTING and not getattr(ep, "lost", False)
+        else:
+            live = p.state != p.STATE_CLOSED and not getattr(ep, "lost", False)
+        n0 = len(ep.events)
+        txaio.resolve(fut, None)
+        self.env.pump()
+        new = ep.events[n0:]
+        if live:
+            io = next((i for i, e in enumerate(new) if e[0] == "onOpen"), len(new))
+            ep.events[n0:] = [e for e in new[:io] if e[0] not in ("write", "onConnect")] + \
+                             [e for e in new[io:] if e[0] not in ("onOpen", "onConnect")]
+        elif any(e[0] == "onOpen" for e in new):
+            ep.events.append(("x", "exception"))      # onOpen after the connection was closed: shown as a raised item
+            ep.last_exc = "onOpen fired after the connection was closed"
+
+    def handshake(self, ep, extra=b"", cut=None, deferred=False):
         """complete the opening handshake of an endpoint created with start == connecting"""
         env = self.env
         p = ep.proto
         if p.state != p.STATE_CONNECTING or getattr(ep, "lost", False):
             return
+        if deferred:
+            import txaio
+            if getattr(ep, "pending_connect", None) is not None:
+                return
+            fut = txaio.create_future()
+            ep.pending_connect = fut
+            p._v_onConnect = lambda r: fut
         n0 = len(ep.events)
         if ep.role == "server":
             req = ("GET / HTTP/1.1\r\nHost: localhost:9000\r\nUpgrade: websocket\r\nConnection: Upgrade\r\n"
